@@ -129,7 +129,7 @@ fn strip_term(term: Term, options: &Options) -> Term {
             Term::Tuple(tuple)
         }
         Term::Block(expression) => Term::Block(strip_expression(expression, options)),
-        Term::String(style, segments) => Term::String(
+        Term::String(style, segments, span) => Term::String(
             style,
             segments
                 .into_iter()
@@ -140,6 +140,7 @@ fn strip_term(term: Term, options: &Options) -> Term {
                     text => text,
                 })
                 .collect(),
+            span,
         ),
         Term::Function(mut function) => {
             function.body = function.body.map(|body| strip_expression(body, options));
